@@ -68,8 +68,11 @@ def gen_cases(rng, tier):
         cases.append(("hair_px", [rng.choice([0, 1, 2]), int(aa), width, w, h, 0] + list(IDENT) + ops))
     # whole fills (the C02 generator: multi-contour paths with open sub-paths, retraced edges, shapes leaving through the
     # borders, tile seams): a pixel farther than the band from the outline and outside the shape must keep its bytes
-    fills = [c for c in _c02.gen_cases(rng, tier) if c[0] == "fill_px" and c[1][3] <= 200]
+    allfills = [c for c in _c02.gen_cases(rng, tier) if c[0] == "fill_px"]
+    fills = [c for c in allfills if c[1][3] <= 200]
     cases += fills[:450 if tier == "quick" else 6000]
+    # tiled pixmaps (wider than 8191, several rows): a span written with the wrong row stride lands outside the shape
+    cases += [c for c in allfills if c[1][3] > 8000 and c[1][4] <= 40][:12 if tier == "quick" else 80]
     return cases
 
 
@@ -80,6 +83,8 @@ def oracle(suite, args, out):
         o = ints(out)
         if len(o) >= 7 and o[2] > 0 and o[6] == 0:
             return "a fill changed %d pixels outside the shape (first (%d,%d), alpha %d): bytes outside the footprint" % (o[2], o[3], o[4], o[5])
+        if len(o) >= 11 and o[8] > 0:
+            return "a fill changed %d pixels outside the bounding box of the shape (first (%d,%d)): bytes outside the footprint" % (o[8], o[9], o[10])
         return None
     if suite == "hair_px":
         o = ints(out)
